@@ -74,11 +74,11 @@ Print Assumptions C08_context_parent_current.
 
 (* C08, event.fire: exactly the given parameters minus a Context-typed `context`, under that context if given, else under
    the run's; the emitted event is itself an occurrence handed to every subscribed trigger *)
-Theorem C08_fire_exact : forall S st r key given data c st',
+Theorem C08_fire_exact : forall S st r key given data c ep st',
   NoDup (map fst given) ->
-  step S st (LRun r (AFire key given data c)) = Some st' ->
+  step S st (LRun r (AFire key given data c ep)) = Some st' ->
   kw_eqb data (spec_fire_data given) = true /\
-  st_occs st' = st_occs st ++ [ {| o_kind := KEvent; o_key := key; o_ctx := Some (c_id c); o_attrs := [];
+  st_occs st' = st_occs st ++ [ {| o_kind := KEvent; o_key := key; o_epoch := ep; o_ctx := Some (c_id c); o_attrs := [];
                                   o_data := spec_fire_data given; o_opt := None |} ] /\
   (match kw_get s_context given with
    | Some (VCtx x) => c_id c = x
